@@ -10,14 +10,18 @@ For every validated file (`Proofs/Generator`, `Proofs/TableCells`; no per-gramma
   * `C17_cells` — an ACTION cell is non-error iff an item of its state demands it there (reduce `A → α` exactly on
     the lookaheads of `[A → α·]`, accept on end of input for `[S' → S·]`, shift to the transition's target on the
     terminal right of a dot), GOTO cells are exactly the nonterminal transitions, everything else is `Err`/`None`.
-What relates `Deriv` to the textbook definition is that the FIRST map is *exact*; it is proved closed under
-the FIRST equations (`Proofs/First`), its soundness and the equivalence with the canonical-LR(1)-merge definition
-are compared with an independent construction on every generated grammar (DESIGN.md §6.3).
+What relates `Deriv` to the textbook definition is that the FIRST map is *exact*: it is proved closed under the
+FIRST equations (`Proofs/First`, which gives completeness w.r.t. derivation trees: `Valid.first_complete_aux`)
+and sound (`Proofs/FirstSound`: a terminal in `FIRST(B)` begins a sentential form derived from `B`, a nullable
+mark means `B ⇒* ε`).  The equivalence of this propagation-rule characterisation with the
+canonical-LR(1)-merged-by-core definition is compared with an independent construction on every generated
+grammar (DESIGN.md §6.3).
 -/
 import KikiVerif.Model.Table
 import KikiVerif.Proofs.Generator
 import KikiVerif.Proofs.TableCells
 import KikiVerif.Proofs.Encode
+import KikiVerif.Proofs.FirstSound
 
 namespace KikiVerif.C17
 open KikiVerif.Table KikiVerif.Machine KikiVerif.LR
@@ -50,9 +54,10 @@ theorem C17_empty_table (c : Ctx) (m : Machine) (s col : Nat) :
 theorem C17_items_exact (vf : VFile.File) (enc : Encode.Enc) (m : Machine) (fuel : Nat)
     (he : Encode.encode vf = some enc) (hm : machineOf enc.ctx fuel = some (some m)) :
     ∃ fm, firstSets enc.ctx fuel = some (some fm) ∧ Valid.firstClosedB enc.ctx.g (toTbl fm) = true ∧
+      FmSound enc.ctx.g fm ∧
       ∀ s y, (s < m.states.length ∧ y ∈ m.states.getD s []) ↔ Deriv enc.ctx fm m.start m.transitions s y := by
   obtain ⟨fm, hfm, mok⟩ := machineOf_ok (Encode.encode_ok he).terms hm
-  exact ⟨fm, hfm, (firstSets_closed hfm).1, items_exact mok⟩
+  exact ⟨fm, hfm, (firstSets_closed hfm).1, firstSets_sound hfm, items_exact mok⟩
 
 theorem C17_one_state_per_core (vf : VFile.File) (enc : Encode.Enc) (m : Machine) (fuel : Nat)
     (he : Encode.encode vf = some enc) (hm : machineOf enc.ctx fuel = some (some m)) :
